@@ -131,6 +131,7 @@ def step (st : St) (ts : List String) : St × String :=
       | (st', none) =>
         if m.unknown || b == expB then (st', "ok")
         else (st', s!"reject {site m "CheckedAdd"} wrong-answer CheckedAdd {x} {v}: expected={expB} got={b}")
+    | some _, some m, _ => (st, "reject " ++ site m "CheckedAdd" ++ " bad-output " ++ " ".intercalate out)
     | _, _, _ => (st, "reject bad-op")
   | ["contains", x, v] => match v.toNat? with
     | some v => judgeRead st x "Contains" (fun s => toString (has s v)) out
@@ -144,6 +145,7 @@ def step (st : St) (ts : List String) : St × String :=
     | some m, [card, r] => match judgeObs st x m m.ideal (site m "Slice") card r with
       | (st', none) => (st', "ok")
       | (st', some msg) => (st', msg)
+    | some m, _ => (st, "reject " ++ site m "Slice" ++ " bad-output " ++ " ".intercalate out)
     | _, _ => (st, "reject bad-op")
   | ["clone", y, x] => match st.get x, st.get y, out with
     | some m, none, ["deadlock"] => if m.dead then (st, "ok") else (st.put x { m with dead := true }, "reject threadSafeDuplex:unexpected-deadlock Clone")
@@ -153,6 +155,7 @@ def step (st : St) (ts : List String) : St × String :=
       match judgeObs (st.put y c) y c m.ideal lab card r with
       | (st', none) => (st', "ok")
       | (st', some msg) => (st', msg)
+    | some m, none, _ => (st, "reject " ++ site m "Clone" ++ " bad-output " ++ " ".intercalate out)
     | _, _, _ => (st, "reject bad-op")
   | ["nd", o, x] => match parseOp o with
     -- operand is not a Duplex: outside the property's statement; the type switch has no case for it and the
@@ -169,7 +172,7 @@ def step (st : St) (ts : List String) : St × String :=
     | some m, ["ok", card, r, cadd] =>
       -- any sequential order: the generator only emits order-independent mixes; operands by plain set algebra
       let lookup := fun y => (st.get y).map (fun q => ({ width := q.width, wrapped := false, set := q.ideal } : Prov))
-      match concRun lookup m.width true m.ideal toks with
+      match concRun lookup x m.width true m.ideal toks with
       | some (s', n) =>
         match judgeObs st x m s' "threadSafeDuplex:concurrent-use" card r with
         | (st', some msg) => (st', msg)
@@ -177,6 +180,7 @@ def step (st : St) (ts : List String) : St × String :=
           if cadd == s!"cadd={n}" then (st', "ok")
           else (st', s!"reject threadSafeDuplex:concurrent-use CheckedAdd-true-count expected={n} got={cadd}")
       | none => (st, "reject bad-op")
+    | some _, _ => (st, "reject threadSafeDuplex:concurrent-use bad-output " ++ " ".intercalate out)
     | _, _ => (st, "reject bad-op")
   | [o, x, y] => match parseOp o, st.get x, st.get y with
     | some op, some p, some q =>
